@@ -467,6 +467,9 @@ func (e *joinEnv) oneJoin(acts []JAct, cycle int) {
 			pending = append(pending, ev)
 			return
 		}
+		if detsim.TotalDrops() > 0 {
+			return // a batch larger than the buffer was (legitimately) cut short somewhere: no strict replay
+		}
 		if msg := mirror.Apply(ev.Type, ev.Obj); msg != "" {
 			detsim.Fail("malformed-event", "join result: %s", msg)
 		}
@@ -512,7 +515,7 @@ func (e *joinEnv) oneJoin(acts []JAct, cycle int) {
 			mirror.Strict = true
 			seeded = true
 			pending = nil
-		} else if m := world.SpecIDs(mirror.List()); !world.SameIDs(m, got) {
+		} else if m := world.SpecIDs(mirror.List()); detsim.TotalDrops() == 0 && !world.SameIDs(m, got) {
 			detsim.Fail("mirror-diverged", "join result: replaying its events does not give its cache\n  mirror: %v\n  cache : %v", m, got)
 		}
 	}
@@ -740,6 +743,12 @@ func genJoin(g GenCtx, kind string) *Join {
 	}
 	if !isIng && rng.Intn(3) == 0 {
 		addDecisiveBurst(rng, sc)
+	}
+	if !isIng && rng.Intn(15) == 0 {
+		// many destination objects: sizes are a knob
+		for i, n := 0, pickInt(rng, 40, 130, 300); i < n; i++ {
+			sc.DstInit = append(sc.DstInit, world.Spec{NS: pick(rng, "n1", "n2"), Name: "bulk" + itoa(i), Labels: randLabels(rng)})
+		}
 	}
 	sc.CloseDst = rng.Intn(3) == 0
 	if rng.Intn(3) == 0 {
